@@ -186,6 +186,36 @@ CHECKS["C13"] = dict(engine="Repro", design_ref="§5 C13",
          "own working directory; compat.enable_links is applied; health checks, deadlines and the example database are off; the API script is a pure function of "
          "(method, target, body)")
 
+GEN_NOTE = (COMMON_TRUST + "; oracle fragment = catalogue patterns (search semantics, NFA advanced by a fold), integer constants, 5 formats; the document concretiser, "
+            "the description -> keyword map and harness/encode.py are trusted Python; jsonschema is used only to self-test the oracle (harness.oas_selftest), never to "
+            "decide a property; Hypothesis is the driver of draws, not the oracle")
+CHECKS["C03"] = dict(engine="GenData", design_ref="§5 C03",
+    technique="TLA+ GenData.tla + the shared three-valued OasSchema.tla oracle; TLC enumeration of a bounded schema / operation family; replay into the real "
+              "deterministic coverage generators; every value and case judged by GenDataJudge.tla",
+    text="TLC enumerates the Appendix-G schema family (numeric bounds incl. 0, equal and contradictory min/max, both exclusive spellings, multipleOf; lengths x 12 "
+         "catalogue patterns; formats; enum/const; nullable in three dialect spellings; arrays; objects with required/optional/additional/readOnly properties; "
+         "allOf/anyOf/oneOf/not over overlapping, disjoint and identical leaves; $ref depth <=2; quick 1 452 schemas + 549 operations, thorough 5 205 + 1 674) and "
+         "checks the spec's own sanity invariants on every descriptor. Each descriptor becomes a real 2.0/3.0/3.1 document and is run through the real deterministic "
+         "generators for mode sets {p}, {n}, {p,n}; every value and case they yield is judged with the three-valued OasSchema oracle: valid-labelled => not invalid; "
+         "invalid-labelled => not valid and violating the keyword its description names; case negative <=> invalid part or missing required or duplicate or "
+         "undocumented method. U verdicts are counted, never judged. The generator is deterministic, so the enumeration is complete over the family.",
+    note=GEN_NOTE)
+CHECKS["C01"] = dict(engine="GenData", design_ref="§5 C01",
+    technique="TLC-enumerated operation descriptor family (GenData.tla) + seeded Hypothesis draws of the real positive strategy + TLC judge with the OasSchema.tla oracle",
+    text="TLC enumerates operation descriptors (per location <=2 parameters from 12 leaf schemas, body alternatives from 10, dialects 2.0/3.0/3.1, configs allow_x00 x "
+         "codec x with_security_parameters; quick 319, thorough 1 690). Each is built into a real document and drawn N times from as_strategy(POSITIVE) under seeded "
+         "Hypothesis. Every distinct case and every per-descriptor outcome is judged in TLC: labels positive, every location conforming under string coercion with "
+         "required parameters present, body conforming incl. readOnly absent, no NUL / codec respected, and satisfiable-by-witness descriptors must yield cases rather "
+         "than Unsatisfiable or an exception. Descriptors are enumerated exhaustively; draws are explored (sampled).",
+    note=GEN_NOTE + "; satisfiability is claimed only with a witness from a bounded universe")
+CHECKS["C02"] = dict(engine="GenData", design_ref="§5 C02",
+    technique="TLC-enumerated operation descriptor family (GenData.tla) + seeded Hypothesis draws of the real negative strategy + TLC judge with the OasSchema.tla oracle",
+    text="Same descriptor family as C01, with as_strategy(NEGATIVE) under modes [negative] and [positive, negative]. Each drawn case is judged for the set of independent "
+         "clauses it breaks: case negative; some present part labelled negative; each negative-labelled part present and not conforming; each positive-labelled part "
+         "conforming. Each outcome is judged too: negatable-by-witness => cases; nothing-to-negate per the property's own list => skipped; asserted only where "
+         "negatability is unambiguous. Mutation choices are drawn, not enumerated.",
+    note=GEN_NOTE)
+
 REASON_PENDING = "no check registered yet: spec/harness for this property is still being built (DESIGN.md §10 build order); nothing is claimed"
 
 
